@@ -2,12 +2,12 @@
 C04 — the belt hypotheses of `Laws` hold for the executable instance (`Inst.lean`, C01's belt model) on
 every argument the model passes: CFB with a 16-octet synchro, ECB on ≥ 16 octets (the l/8-octet strings
 of BPACE, l ≥ 128), key wrap of ≥ 16 octets under a 32-octet key.  From the C01 theorems.
-(`mac_len`, `krp_len` are not derived here: the 8- and 32-octet outputs are visible in every line of the
-correspondence run.)
+(`mac_len`, `krp_len`: see the end of this file.)
 -/
 import Bee2V.C01.PropsModes
 import Bee2V.C01.PropsStream
 import Bee2V.C01.PropsWbl
+import Bee2V.C01.PropsChunk
 import Bee2V.C04.Inst
 namespace Bee2V.C04
 open Bee2V.C02 (Bytes zeros)
